@@ -93,6 +93,7 @@ func runC01(c *Ctx, r *Rec) {
 	info := c.info("collection")
 
 	checkReceiverWrites(c, r, "D4-receiver-writes-persist", lst)
+	checkResetCompleteness(c, r, "D4-reset-complete", lst)
 	checkReceiverWrites(c, r, "D4-receiver-writes-persist", arr)
 	// ---- D2 normalisers
 	type layer struct {
@@ -879,6 +880,11 @@ func checkSearchConvention(c *Ctx, r *Rec, info *types.Info, lst *types.Named) {
 		}
 	}
 	checkEmptyOperand(c, r, "D2c-empty-operand", info, ms)
+	var fds []*ast.FuncDecl
+	for _, name := range sortedKeys(ms) {
+		fds = append(fds, ms[name])
+	}
+	checkAppendAliasing(c, r, "D6-append-keeps-the-tail", info, fds)
 }
 
 // checkEmptyOperand: ContainsAny(empty) is false and ContainsAll(empty) is true.  The method is
@@ -1267,4 +1273,81 @@ func checkOrdinalArgs(c *Ctx, r *Rec, rule string, info *types.Info, fd *ast.Fun
 		})
 	}
 	return sites
+}
+
+// checkAppendAliasing: append(S[:k], ...) writes into the backing array of S behind position k
+// whenever the capacity allows it.  If S (its tail, or all of it) is read after that append, the
+// values read are the ones just written, not the original ones.  Safe forms: a full slice
+// expression S[:k:k], an S that is not read again, or a prefix of a slice that was just made
+// with the exact length.
+func checkAppendAliasing(c *Ctx, r *Rec, rule string, info *types.Info, fds []*ast.FuncDecl) {
+	n := 0
+	for _, fd := range fds {
+		if fd.Body == nil {
+			continue
+		}
+		var g *FG
+		ast.Inspect(fd.Body, func(x ast.Node) bool {
+			call, ok := x.(*ast.CallExpr)
+			if !ok || !isBuiltinCall(info, call, "append") || len(call.Args) < 2 {
+				return true
+			}
+			se, ok := ast.Unparen(call.Args[0]).(*ast.SliceExpr)
+			if !ok || se.High == nil || se.Slice3 {
+				return true
+			}
+			so := identObj(info, se.X)
+			if so == nil {
+				return true
+			}
+			n++
+			if g == nil {
+				g = newFG(info, fd.Body)
+			}
+			construct := c.fdName(fd) + "/append-to-prefix"
+			pt, okp := g.after(call)
+			if !okp {
+				return true
+			}
+			// is the slice read again after the append (other than being overwritten as a whole)?
+			var read ast.Node
+			found, _ := g.exists(pathQuery{from: pt,
+				stop: func(nd ast.Node) bool {
+					// S = ... : from here on S is another slice
+					if as, ok := nd.(*ast.AssignStmt); ok {
+						for _, l := range as.Lhs {
+							if identObj(info, l) == so {
+								// the right-hand side is evaluated first
+								for _, rh := range as.Rhs {
+									if nodeHas(rh, func(y ast.Node) bool { id, ok := y.(*ast.Ident); return ok && info.Uses[id] == so }) {
+										read = nd
+									}
+								}
+								return true
+							}
+						}
+					}
+					return false
+				},
+				goalNode: func(nd ast.Node) bool {
+					if containsNode(nd, call) {
+						return false
+					}
+					if nodeHas(nd, func(y ast.Node) bool { id, ok := y.(*ast.Ident); return ok && info.Uses[id] == so }) {
+						read = nd
+						return true
+					}
+					return false
+				}})
+			if found || read != nil {
+				r.fail(rule, construct, c.pos(call.Pos()), fmt.Sprintf("%s appends behind a prefix of %s, which overwrites the values of %s that follow the prefix whenever its capacity allows, and %s is read again at %s: the values read there are the ones just written, not the original ones", exprStr(call), so.Name(), so.Name(), so.Name(), c.pos(read.Pos())))
+			} else {
+				r.ok(rule, construct, c.pos(call.Pos()), "the slice whose prefix is appended to is not read again")
+			}
+			return true
+		})
+	}
+	if n == 0 {
+		r.skip(rule, "collection/append-to-prefix", "", "no append to a prefix of a slice in the methods of this type")
+	}
 }
